@@ -33,8 +33,9 @@ MCKnown == {C.tla_str(set(known))}
 """
 
 
-def cfg(maxind, maxlines, source):
+def cfg(maxind, maxlines, source, stride=64):
     return f"""CONSTANTS
+  Stride = {stride}
   Protos <- MCProtos
   KnownDevs <- MCKnown
   MaxInd = {maxind}
@@ -50,13 +51,13 @@ CHECK_DEADLOCK FALSE
 """
 
 
-def run_tlc(wd, protos, known, maxind, maxlines, texts=None):
+def run_tlc(wd, protos, known, maxind, maxlines, texts=None, stride=64):
     open(os.path.join(wd, "DipTreeMC.tla"), "w").write(mc_module(protos, known))
     if texts is None:
         return C.run_tlc(wd, "DipTreeMC", cfg(maxind, maxlines, "enum"), extra=["-continue"])
     f = os.path.join(wd, "texts.json")
     json.dump(texts, open(f, "w"))
-    return C.run_tlc(wd, "DipTreeMC", cfg(maxind, 0, "file"), env={"DIP_IN": f}, extra=["-continue"])
+    return C.run_tlc(wd, "DipTreeMC", cfg(maxind, 0, "file", stride), env={"DIP_IN": f}, extra=["-continue"])
 
 
 def random_texts(rnd, protos, maxind, n, minlen, maxlen):
@@ -69,6 +70,42 @@ def random_texts(rnd, protos, maxind, n, minlen, maxlen):
             ind = rnd.randint(0, min(maxind, prev + 1))
             text.append({"k": p["k"], "ind": ind, "nm": list(p["nm"]), "v": j + 1, "c": bool(p["c"])})
             prev = ind
+        out.append(text)
+    return out
+
+
+def block_texts(rnd, n, minblocks, maxblocks):
+    """Long, mostly legal texts: a sequence of complete blocks (@case / nodes / [@case ..] / [@else ..] / @end), some nested
+    one level, with nodes between the blocks.  Clause keywords run into two-digit case ids."""
+    out = []
+    for _ in range(n):
+        text = []
+
+        def add(k, ind, nm=(), c=False):
+            text.append({"k": k, "ind": ind, "nm": list(nm), "v": len(text) + 1, "c": c})
+
+        def block(ind, depth):
+            add("case", ind, c=rnd.random() < 0.5)
+            add("def", ind + 1, [rnd.choice("ab")])
+            if depth < 1 and rnd.random() < 0.3:
+                block(ind + 1, depth + 1)
+            for _ in range(rnd.choice([0, 0, 1, 2])):
+                add("case", ind, c=rnd.random() < 0.5)
+                add(rnd.choice(["def", "mod"]), ind + 1, ["a"])
+            if rnd.random() < 0.6:
+                add("else", ind)
+                add("def", ind + 1, [rnd.choice("ab")])
+            if rnd.random() < 0.8:
+                add("end", ind)
+            else:
+                add("def", ind, ["b"])          # closed by indentation
+        add("def", 0, ["a"])
+        for _ in range(rnd.randint(minblocks, maxblocks)):
+            if len(text) > 34:          # TLC's recursion depth (JVM stack) bounds the text length
+                break
+            block(0, 0)
+            if rnd.random() < 0.5:
+                add(rnd.choice(["def", "mod"]), 0, [rnd.choice("ab")])
         out.append(text)
     return out
 
